@@ -10,7 +10,16 @@ theorem flowOk_at {md : Module} {hm : HMap} (h : flowOk md hm = true) {a : Nat} 
   unfold flowOk at h
   simp only [Bool.and_eq_true] at h
   have := (List.all_eq_true.mp h.1.1.1) a (List.mem_range.mpr ha)
-  simpa using this
+  simp only [Bool.and_eq_true] at this
+  exact this.1
+
+theorem flowOk_pend {md : Module} {hm : HMap} (h : flowOk md hm = true) {a : Nat} (ha : a < md.code.size) :
+    pendOkAt md hm a = true := by
+  unfold flowOk at h
+  simp only [Bool.and_eq_true] at h
+  have := (List.all_eq_true.mp h.1.1.1) a (List.mem_range.mpr ha)
+  simp only [Bool.and_eq_true] at this
+  exact this.2
 
 theorem flowOk_handlers {md : Module} {hm : HMap} (h : flowOk md hm = true) : handlersOk md hm = true := by
   unfold flowOk at h
@@ -18,22 +27,28 @@ theorem flowOk_handlers {md : Module} {hm : HMap} (h : flowOk md hm = true) : ha
   exact h.1.1.2
 
 theorem flowOk_starts {md : Module} {hm : HMap} (h : flowOk md hm = true) {a : Nat} (ha : a ∈ funcStarts md) :
-    ∃ st, hm[a]? = some (some st) ∧ st.h = 0 := by
+    ∃ st, hm[a]? = some (some st) ∧ st.h = 0 ∧ st.marks = [] ∧ intRun md a = [] := by
   unfold flowOk at h
   simp only [Bool.and_eq_true] at h
   have := (List.all_eq_true.mp h.1.2) a ha
-  split at this
-  · rename_i s hs; exact ⟨s, hs, by simpa using this⟩
-  · cases this
+  simp only [Bool.and_eq_true, List.isEmpty_iff] at this
+  obtain ⟨t1, t2⟩ := this
+  split at t1
+  · rename_i s hs
+    simp only [Bool.and_eq_true, beq_iff_eq] at t1
+    exact ⟨s, hs, t1.1, t1.2, t2⟩
+  · cases t1
 
 theorem flowOk_entry {md : Module} {hm : HMap} (h : flowOk md hm = true) :
-    ∃ st, hm[0]? = some (some st) ∧ npAt md (funcStarts md) 0 + st.h = 0 := by
+    ∃ st, hm[0]? = some (some st) ∧ npAt md (funcStarts md) 0 + st.h = 0 ∧ st.marks = [] := by
   unfold flowOk at h
   simp only [Bool.and_eq_true] at h
   have := h.2
   unfold entryOk at this
   split at this
-  · rename_i s hs; exact ⟨s, hs, by simpa using this⟩
+  · rename_i s hs
+    simp only [Bool.and_eq_true, beq_iff_eq] at this
+    exact ⟨s, hs, this.1, this.2⟩
   · cases this
 
 theorem lt_size_of_getElem? {α} {xs : Array α} {a : Nat} {x : α} (h : xs[a]? = some x) : a < xs.size := by
@@ -147,15 +162,6 @@ theorem frameOkAt_JUMPZ (hi : md.code[a]? = some i) (hs : hm[a]? = some (some s)
   simp only [hi, hs, hop, Bool.and_eq_true] at h
   exact h
 
-/-- the distance below `sp` at which a frame-relative opcode addresses the stack (`none`: not such an opcode) -/
-def frameDist (i : Instr) : Option Int :=
-  match i.op with
-  | .ID_LOCAL | .ID_DIM_LOCAL | .ID_DIM_SLICE | .OP_DUP_INT | .OP_INC_INT | .OP_DEC_INT | .ARRAY_APPEND => some (i32 i.w0 - i32 i.w1)
-  | .VEC_DEREF | .VECREF_VEC_DEREF => some (i32 i.w0)
-  | .DUP => some ((i.w0 : Int) - 1)
-  | .REWRITE => some (i.w0 : Int)
-  | _ => none
-
 theorem frameOkAt_reach (hi : md.code[a]? = some i) (hs : hm[a]? = some (some s)) {d : Int} (hd : frameDist i = some d)
     (h : frameOkAt md starts hm a = true) : reachB (topAt starts a) (npAt md starts a) s.h d = true := by
   unfold frameDist at hd
@@ -178,4 +184,141 @@ theorem frameOkAt_next (hi : md.code[a]? = some i) (hs : hm[a]? = some (some s))
     | (simp only [he, Option.isNone_some, Bool.false_or] at h; exact h)
 
 end
+end Never.Ver
+
+namespace Never.Ver
+open Never Never.Vm
+
+/-! ### what `pendOkAt` says: the calls in preparation -/
+
+theorem mAt_spec {hm : HMap} {t : Nat} {ms : List Nat} (h : mAt hm t ms = true) : ∃ s', hm[t]? = some (some s') ∧ s'.marks = ms := by
+  unfold mAt at h
+  split at h
+  · rename_i s' hs; exact ⟨s', hs, by simpa using h⟩
+  · cases h
+
+/-- the marks recorded at address `a` (none if unreached) -/
+def marksAt (hm : HMap) (a : Nat) : List Nat := match hm[a]? with | some (some st) => st.marks | _ => []
+
+theorem marksAt_eq {hm : HMap} {a : Nat} {st : AbsSt} (h : hm[a]? = some (some st)) : marksAt hm a = st.marks := by
+  unfold marksAt; rw [h]
+
+theorem mAt_marksAt {hm : HMap} {t : Nat} {ms : List Nat} (h : mAt hm t ms = true) : marksAt hm t = ms := by
+  obtain ⟨s', e1, e2⟩ := mAt_spec h
+  rw [marksAt_eq e1, e2]
+
+section
+variable {md : Module} {hm : HMap} {a : Nat} {i : Instr} {s : AbsSt}
+
+theorem pendOkAt_nested (hi : md.code[a]? = some i) (hs : hm[a]? = some (some s)) (h : pendOkAt md hm a = true) :
+    marksNested s.h s.marks = true := by
+  unfold pendOkAt at h
+  simp only [hi, hs, Bool.and_eq_true] at h
+  exact h.1.1
+
+theorem pendOkAt_word (hi : md.code[a]? = some i) (hs : hm[a]? = some (some s)) {d : Int} (hd : frameDist i = some d)
+    (h : pendOkAt md hm a = true) : notPendingWord s.h s.marks d = true := by
+  unfold pendOkAt at h
+  simp only [hi, hs, hd, Bool.and_eq_true] at h
+  exact h.1.2
+
+theorem pendOkAt_MARK (hi : md.code[a]? = some i) (hs : hm[a]? = some (some s)) (hop : i.op = .MARK) (h : pendOkAt md hm a = true) :
+    mAt hm (a + 1) (s.h :: s.marks) = true ∧ mAt hm i.w0 s.marks = true ∧ intRun md i.w0 = [] := by
+  unfold pendOkAt at h
+  simp only [hi, hs, hop, Bool.and_eq_true, List.isEmpty_iff] at h
+  exact ⟨h.2.1.1, h.2.1.2, h.2.2⟩
+
+theorem pendOkAt_SLIDE (hi : md.code[a]? = some i) (hs : hm[a]? = some (some s)) (hop : i.op = .SLIDE) (h : pendOkAt md hm a = true) :
+    (i.w0 = 0 ∧ mAt hm (a + 1) s.marks = true) ∨
+    (i.w0 ≠ 0 ∧ i.w0 + i.w1 ≤ s.h ∧ pendFloor s.marks + i.w0 + i.w1 ≤ s.h ∧ mAt hm (a + 1) s.marks = true) ∨
+    (i.w0 ≠ 0 ∧ s.h < i.w0 + i.w1 ∧ s.marks = [] ∧ mAt hm (a + 1) [] = true) := by
+  unfold pendOkAt at h
+  simp only [hi, hs, hop, Bool.and_eq_true] at h
+  have h2 := h.2
+  by_cases hq : i.w0 = 0
+  · simp only [hq, beq_self_eq_true, if_true] at h2; exact Or.inl ⟨hq, h2⟩
+  · have hq' : (i.w0 == 0) = false := by simpa using hq
+    simp only [hq', Bool.false_eq_true, if_false] at h2
+    by_cases hle : i.w0 + i.w1 ≤ s.h
+    · simp only [hle, if_true, Bool.and_eq_true, decide_eq_true_eq] at h2
+      exact Or.inr (Or.inl ⟨hq, hle, h2.1, h2.2⟩)
+    · simp only [hle, if_false, Bool.and_eq_true, beq_iff_eq] at h2
+      exact Or.inr (Or.inr ⟨hq, by omega, h2.1, h2.2⟩)
+
+theorem pendOkAt_CLEAR_STACK (hi : md.code[a]? = some i) (hs : hm[a]? = some (some s)) (hop : i.op = .CLEAR_STACK)
+    (h : pendOkAt md hm a = true) : mAt hm (a + 1) [] = true := by
+  unfold pendOkAt at h
+  simp only [hi, hs, hop, Bool.and_eq_true] at h
+  exact h.2
+
+theorem pendOkAt_CALL (hi : md.code[a]? = some i) (hs : hm[a]? = some (some s)) (hop : i.op = .CALL)
+    (h : pendOkAt md hm a = true) : pendFloor s.marks + 1 ≤ s.h := by
+  unfold pendOkAt at h
+  simp only [hi, hs, hop, Bool.and_eq_true, decide_eq_true_eq] at h
+  exact h.2
+
+theorem pendOkAt_PUSH_PARAM (hi : md.code[a]? = some i) (hs : hm[a]? = some (some s)) (hop : i.op = .PUSH_PARAM)
+    (h : pendOkAt md hm a = true) : mAt hm (a + 1) s.marks = true := by
+  unfold pendOkAt at h
+  simp only [hi, hs, hop, Bool.and_eq_true] at h
+  exact h.2
+
+theorem pendOkAt_MK_INIT_ARRAY (hi : md.code[a]? = some i) (hs : hm[a]? = some (some s)) (hop : i.op = .MK_INIT_ARRAY)
+    (h : pendOkAt md hm a = true) :
+    ∃ ds, initExts s i.w0 = some ds ∧ pendFloor s.marks + i.w0 + extsCount ds ≤ s.h ∧ mAt hm (a + 1) s.marks = true ∧
+      i.w0 ≤ (intRun md a).length ∧ ds = (intRun md a).take i.w0 := by
+  unfold pendOkAt at h
+  simp only [hi, hs, hop, Bool.and_eq_true] at h
+  have h2 := h.2
+  split at h2
+  · rename_i ds hds
+    simp only [Bool.and_eq_true, decide_eq_true_eq, beq_iff_eq] at h2
+    exact ⟨ds, hds, h2.1.1.1, h2.1.1.2, h2.1.2, h2.2⟩
+  · cases h2
+
+theorem pendOkAt_JUMP (hi : md.code[a]? = some i) (hs : hm[a]? = some (some s)) (hop : i.op = .JUMP) (h : pendOkAt md hm a = true) :
+    mAt hm ((a : Int) + 1 + i32 i.w0).toNat s.marks = true ∧ intRun md ((a : Int) + 1 + i32 i.w0).toNat = [] := by
+  unfold pendOkAt at h
+  simp only [hi, hs, hop, Bool.and_eq_true, List.isEmpty_iff] at h
+  exact h.2
+
+theorem pendOkAt_JUMPZ (hi : md.code[a]? = some i) (hs : hm[a]? = some (some s)) (hop : i.op = .JUMPZ) (h : pendOkAt md hm a = true) :
+    pendFloor s.marks + 1 ≤ s.h ∧ mAt hm ((a : Int) + 1 + i32 i.w0).toNat s.marks = true ∧ mAt hm (a + 1) s.marks = true ∧
+    intRun md ((a : Int) + 1 + i32 i.w0).toNat = [] := by
+  unfold pendOkAt at h
+  simp only [hi, hs, hop, Bool.and_eq_true, decide_eq_true_eq, List.isEmpty_iff] at h
+  exact ⟨h.2.1.1.1, h.2.1.1.2, h.2.1.2, h.2.2⟩
+
+/-- an instruction of the effect table (not JUMPZ): after popping its operands it still stands at or above the innermost pending
+record, and its successor carries the same marks -/
+theorem pendOkAt_table (hi : md.code[a]? = some i) (hs : hm[a]? = some (some s)) {p q : Nat} (he : simpleEffect i = some (p, q))
+    (hj : i.op ≠ .JUMPZ) (h : pendOkAt md hm a = true) : pendFloor s.marks + p ≤ s.h ∧ mAt hm (a + 1) s.marks = true := by
+  unfold pendOkAt at h
+  simp only [hi, hs, Bool.and_eq_true] at h
+  have h2 := h.2
+  split at h2
+  all_goals (rename_i hop)
+  all_goals first
+    | (exfalso; simp [simpleEffect, hop, binOpOf, unOpOf, convOf, nilCmpOf, strAddOf, arrOpOf, mkArrayElem] at he; done)
+    | (exact absurd hop hj)
+    | (simp only [he, Bool.and_eq_true, decide_eq_true_eq] at h2; exact h2)
+
+end
+
+/-- behind an instruction that is not `INT` no constant run continues; behind `INT c` it is `c ::` the run before it -/
+theorem intRun_succ (md : Module) (a : Nat) (i : Instr) (hi : md.code[a]? = some i) :
+    intRun md (a + 1) = if i.op = .INT then (bv32 i.w0).toInt :: intRun md a else [] := by
+  show (match md.code[a]? with | some i => if i.op == Opc.INT then (bv32 i.w0).toInt :: intRun md a else [] | none => []) = _
+  rw [hi]
+  by_cases h : i.op = .INT <;> simp [h]
+
+theorem marksNested_floor : ∀ {h : Nat} {ms : List Nat}, marksNested h ms = true → pendFloor ms ≤ h := by
+  intro h ms hn
+  cases ms with
+  | nil => simp [pendFloor]
+  | cons m rest =>
+    unfold marksNested at hn
+    simp only [Bool.and_eq_true, decide_eq_true_eq] at hn
+    simp only [pendFloor]; exact hn.1
+
 end Never.Ver
